@@ -339,6 +339,35 @@ def two_level_context_history(h: Harness, rng):
         h.seen(f"two-level-context-history:{only_var}", nontrivial=ok > 0)
 
 
+def simplegp_history(h: Harness, rng):
+    """a whole search through the geml front end (SimpleGP) on the user's grammar object -- a WEIGHTED grammar whose start symbol has a
+    sibling that cannot be reached from it: when the search is over, the grammar (weights included) is what it was"""
+    from geml.simplegp import SimpleGP
+    from linear import safe
+    C = gram.ClassSpec
+    specs = [gram.Spec([C("Node", True, None), C("Decl", False, 0, [("k", ("ann", "int", ("intRange", 0, 3)))], weight=1), C("Expr", True, 0, weight=3),
+                        C("Lit", False, 2, [("v", ("ann", "int", ("intRange", 0, 9)))], weight=2), C("Add", False, 2, [("l", ("cls", 2)), ("r", ("cls", 2))], weight=2)],
+                       2, [1, 3, 4, 2]),
+             gram.Spec([C("A0", True, None), C("Lit", False, 0, [("v", ("ann", "int", ("intRange", 0, 9)))], weight=3), C("Neg", False, 0, [("e", ("cls", 0))], weight=1),
+                        C("Off", False, 0, [("e", ("cls", 0))], weight=0)], 0, [1, 2, 3])]
+    for spec in specs:
+        b = gram.build(spec)
+        g = b.extract()
+        first = snapshot(b, g)
+        for seed in range(h.n(2, 6)):
+            st, out = safe(lambda: SimpleGP(lambda p: float(len(repr(p)) % 13), g, minimize=False, max_depth=5, max_evaluations=40, max_time=30,
+                                           population_size=8, elitism=1, novelty=1, seed=seed).search())
+            h.count(f"simplegp-searches:{st}")
+            h.seen(f"simplegp-history:{gram.spec_sx_str(spec)[:30]}:{seed}", nontrivial=st == "ok")
+            now = snapshot(b, g)
+            if now != first:
+                diff = next(key for key in first if first[key] != now[key])
+                h.fail("search[SimpleGP]", "grammar-modified",
+                       f"SimpleGP(...).search() (seed {seed}; {st}) on a weighted grammar changed Grammar.{diff} of the user's grammar object: "
+                       f"{first[diff]} -> {now[diff]}", [sx(gram.spec_sx(spec)), seed])
+                break
+
+
 def refinement_parameters_history(h: Harness, rng):
     """a refinement object that lives as long as the grammar and has parameters of its own (a WeightedStringHandler with its
     probability matrix): creating and mapping never rewrites them, and the set of creatable strings stays what the matrix
@@ -427,6 +456,7 @@ def run(h: Harness):
     unknown_symbol_history(h, rng)
     refinement_parameters_history(h, rng)
     two_level_context_history(h, rng)
+    simplegp_history(h, rng)
     for spec in corpus():
         for _ in range(3):
             history(h, spec, rng)
